@@ -224,6 +224,20 @@ theorem clampFac_lt_one_iff (o : Ops K) (p : RosParams K) (e : K) (h1 : p.fmin <
     · exact h.2
   · intro h; exact Or.inr ⟨h1, h⟩
 
+/-- legal controller parameters (each C07 theorem states which of these it uses) -/
+structure LegalParams (p : RosParams K) : Prop where
+  hmin_nonneg : 0 ≤ p.hmin
+  fmin_pos : 0 < p.fmin
+  fmin_lt_one : p.fmin < 1
+  one_le_fmax : 1 ≤ p.fmax
+  rejDec_pos : 0 < p.rejDec
+  rejDec_lt_one : p.rejDec < 1
+  safety_pos : 0 < p.safety
+
+theorem clampFac_pos (o : Ops K) (p : RosParams K) (e : K) (h1 : 0 < p.fmin) (h2 : p.fmin ≤ p.fmax) :
+    0 < clampFac o p e :=
+  lt_of_lt_of_le h1 (fmin_le_clampFac o p e h2)
+
 end OrderedCtl
 
 /-! ### the initial step size of `rosSolve` -/
